@@ -857,9 +857,41 @@ def dangling_fields(prog, fn):
 
 
 # ------------------------------------------------------------------------ unchecked allocation
-def unchecked_allocations(prog, fn):
-    """Locals assigned from an allocator and dereferenced on a path from that assignment on which
-    neither `v != NULL` has been established nor v has been reassigned.  [(block, idx, var, what, witness)]"""
+NULLABLE = {"strstr", "strchr", "strrchr", "strpbrk", "memchr", "getenv", "strtok", "strcasestr"}
+STR_USERS = {"memcpy", "memset", "memmove", "strcpy", "strncpy", "KSI_strncpy", "strlen", "strcmp", "strncmp", "strcat", "strtol", "strtoul", "atoi",
+             "KSI_snprintf", "KSI_strdup", "strdup"}
+
+
+def nullable_arithmetic(fn):
+    """Results of NULLABLE library functions used directly as an operand of pointer arithmetic, indexing, dereference or as a string
+    argument: a NULL result is not representable any more, a later comparison with NULL is dead.  [(block, idx, callee, text)]"""
+    out = []
+    for b, i, n in fn.nodes():
+        k = n.get("k")
+        ops = []
+        if k == "bin" and n["op"] in ("+", "-"):
+            ops = [n["l"], n["r"]]
+        elif k == "idx":
+            ops = [n["b"]]
+        elif k == "un" and n["op"] == "*":
+            ops = [n["e"]]
+        elif k == "call" and n.get("fn") in STR_USERS:
+            ops = list(n["a"])
+        for o in ops:
+            o2 = fn.resolve(strip(o))
+            while isinstance(o2, dict) and o2.get("k") == "cast":
+                o2 = fn.resolve(strip(o2["e"]))
+            c = o2 if isinstance(o2, dict) and o2.get("k") == "call" else None
+            if c is not None and c.get("fn") in NULLABLE:
+                out.append((b, i, c["fn"], show(n, fn)))
+    return out
+
+
+def unchecked_allocations(prog, fn, producers=None):
+    """Locals assigned from an allocator (or, with `producers`, from another function that may return NULL) and dereferenced on
+    a path from that assignment on which neither `v != NULL` has been established nor v has been reassigned.
+    [(block, idx, var, what, witness)]"""
+    ALLOC = producers if producers is not None else globals()["ALLOC"]
     from .flow import g_nonnull
     out = []
     sites = []
@@ -891,6 +923,8 @@ def unchecked_allocations(prog, fn):
             if n.get("k") == "idx" and is_var(n["b"], v):
                 return show(n, fn)
             if n.get("k") == "call" and n.get("fn") in ("memcpy", "memset", "memmove", "strcpy", "strncpy", "KSI_strncpy") and n["a"] and is_var(n["a"][0], v):
+                return show(n, fn)
+            if producers is not None and n.get("k") == "call" and n.get("fn") in STR_USERS and any(is_var(a, v) for a in n["a"]):
                 return show(n, fn)
         return None
 
